@@ -83,12 +83,18 @@ def plugins():
             return self.chunk(start=lo, end=hi, data=a[(a["time"] >= lo) & (a["endtime"] <= hi)])
 
     def row(name, f, k):
+        @strax.takes_config(strax.Option("slow_infer", default=0.0, track=False))
         class P(strax.Plugin):
+            # no class-level dtype / data_kind: both are worked out when the plugin instance is built
+            # (infer_dtype may take a while in real plugins; here 0 .. 2 ms)
             provides = name
             depends_on = ("ev",)
-            dtype = dtf(f)
-            data_kind = "ev"
             rechunk_on_save = False
+
+            def infer_dtype(self):
+                if self.config["slow_infer"]:
+                    time.sleep(self.config["slow_infer"])
+                return dtf(f)
 
             def compute(self, ev):
                 r = np.zeros(len(ev), dtype=dtf(f))
@@ -103,9 +109,9 @@ def plugins():
     return [Src, row("pa", "v1", 3), row("pb", "v2", 7)]
 
 
-def context(d, bad_run=""):
+def context(d, bad_run="", slow_infer=0.0):
     return strax.Context(storage=[strax.DataDirectory(d)] if d else [], register=plugins(),
-                         config={"bad_run": bad_run}, processors=["single_thread"], timeout=60)
+                         config={"bad_run": bad_run, "slow_infer": slow_infer}, processors=["single_thread"], timeout=60)
 
 
 class YieldInjector:
@@ -194,7 +200,7 @@ def gen_cfg(seed, idx):
         bad = ",".join(rng.sample(runs, nb))
     return {"runs": runs, "workers": rng.choice([1, 1, 1, 2, 2, 3, 4, 8]), "targets": rng.choice([["pa"], ["pa"], ["pa", "pb"], ["ev", "pb"]]),
             "warm": rng.random() < 0.5, "storage": rng.random() < 0.5, "api": rng.choice(["get_array", "get_array", "get_df", "make"]),
-            "bad": bad, "ignore": bool(bad) and rng.random() < 0.6,
+            "bad": bad, "ignore": bool(bad) and rng.random() < 0.6, "slow_infer": rng.choice([0.0, 0.0, 0.001, 0.002]),
             "mode": rng.choice(["switch", "switch", "yield", "default"]), "mode_seed": rng.randint(0, 10 ** 6)}
 
 
@@ -211,7 +217,7 @@ def run_cfg(cfg):
 
     d = hrun.mktemp("c15-") if cfg["storage"] else None
     try:
-        st = context(d, cfg["bad"])
+        st = context(d, cfg["bad"], cfg.get("slow_infer", 0.0))
         tg = tuple(cfg["targets"]) if len(cfg["targets"]) > 1 else cfg["targets"][0]
         if cfg["warm"]:
             with common.quiet():
